@@ -225,7 +225,7 @@ func indexSpec(idx *schema.Index) (*sqlspec.Index, error) {
 		return nil, err
 	}
 	if i := (IndexPredicate{}); sqlx.Has(idx.Attrs, &i) && i.P != "" {
-		spec.Extra.Attrs = append(spec.Extra.Attrs, specutil.VarAttr("where", strconv.Quote(i.P)))
+		spec.Extra.Attrs = append(spec.Extra.Attrs, specutil.VarAttr("where", strings.NewReplacer("${", "$${", "%{", "%%{").Replace(strconv.Quote(i.P))))
 	}
 	return spec, nil
 }
